@@ -26,7 +26,10 @@ RULE = ('nested mappings of depth <= 4 and width <= 5 built from dict, OrderedDi
         '(one Mapping object, dict or not, empty or not, reachable through several key paths: siblings, different '
         'depths, under sanitize keys); non-mappings that have items()/keys()/__getitem__ (ad-hoc classes, '
         'email.message.Message, xml Element, SimpleNamespace(items=..)) as the argument (TypeError) and as values '
-        '(left alone), and a registered virtual Mapping subclass (accepted). Non-trivial: the result differs from the '
+        '(left alone), and a registered virtual Mapping subclass (accepted); keys that are instances of str '
+        'subclasses (plain subclass, a wrapper overriding __str__/lower/__contains__/__eq__/__hash__, (str, Enum) and '
+        'StrEnum members) for every sanitize key, at every depth -- the same key object must be in the result. '
+        'Non-trivial: the result differs from the '
         'argument (something was masked) or TypeError was raised; distinct by the encoded tree and mask')
 TRUSTED_BASE = [
     'Lean 4 kernel; axioms audited per theorem (subset of propext, Classical.choice, Quot.sound)',
@@ -36,7 +39,8 @@ TRUSTED_BASE = [
     'encodes the argument (a value is a mapping node iff isinstance says so)',
 ]
 UNMODELLED = ['Mapping objects whose items() is not a function of their content (side effects, duplicate keys)',
-              'str subclasses as keys or values', 'a mask containing a backslash (see C04)']
+              'str subclasses as VALUES (keys that are instances of str subclasses are covered: the key text is '
+              'str.__str__(key))', 'a mask containing a backslash (see C04)']
 ASSUMPTIONS = ['keys of one mapping are pairwise unequal (true of every dict)']
 
 NONSTR_KEYS = [0, 1, 7, -3, 2.5, (1, 2), ('password',), b'password', b'x', None, frozenset({1}), ('token', 3)]
@@ -157,7 +161,73 @@ def make_mapping(rng, items, kind=None):
     return FrozenMap(d)
 
 
+class PlainSub(str):
+    """a str subclass that adds nothing"""
+
+
+class LazyText(str):
+    """a lazy-translation style wrapper: overrides __str__ / lower / __contains__ / __eq__ / __hash__, all
+    consistently with the text it carries"""
+
+    def __str__(self):
+        return str.__str__(self)
+
+    def lower(self):
+        return LazyText(str.lower(self))
+
+    def __contains__(self, x):
+        return str.__contains__(self, x)
+
+    def __eq__(self, other):
+        return str.__eq__(self, other)
+
+    def __ne__(self, other):
+        return str.__ne__(self, other)
+
+    def __hash__(self):
+        return str.__hash__(self)
+
+
+SUBKEY_KINDS = ['plain-sub', 'lazy', 'str-enum', 'strenum']
+
+
+def make_subkey(kind, text):
+    """A key that IS a str (an instance of a str subclass) carrying `text`."""
+    import enum
+    if kind == 'plain-sub':
+        return PlainSub(text)
+    if kind == 'lazy':
+        return LazyText(text)
+    if kind == 'str-enum':                      # class Field(str, enum.Enum)
+        return enum.Enum('Field', {'MEMBER': text}, type=str).MEMBER
+    if hasattr(enum, 'StrEnum'):
+        return enum.StrEnum('Names', {'MEMBER': text}).MEMBER
+    return PlainSub(text)
+
+
+def subkey_kind(k):
+    import enum
+    if type(k) is PlainSub:
+        return 'plain-sub'
+    if type(k) is LazyText:
+        return 'lazy'
+    if hasattr(enum, 'StrEnum') and isinstance(k, enum.StrEnum):
+        return 'strenum'
+    if isinstance(k, enum.Enum):
+        return 'str-enum'
+    return 'plain-sub'
+
+
 def gen_str_key(rng):
+    """A string key; about one in eight is an instance of a str SUBCLASS (the property says "string key":
+    isinstance semantics), the text being generated in the same way."""
+    text = gen_str_key_text(rng)
+    if rng.random() < 0.13 and text:
+        return make_subkey(rng.choice(SUBKEY_KINDS), text)
+    return text
+
+
+def gen_str_key_text(rng):
     keys = C04.all_keys()
     x = rng.random()
     if x < 0.55:
@@ -211,6 +281,22 @@ def short_secret_grid(rng, passes):
     for p in range(passes):
         for key in keys:
             yield short_secret_tree(rng, key, ['lower', 'upper', 'cap', 'mixed'][p % 4], depth=1 + (p + len(key)) % 4)
+
+
+def subkey_grid(rng, passes):
+    """Every sanitize key x every kind of str-subclass key (alone / embedded, some case form), the secret stored as
+    a str, a number, None, a list, at depth 1..3 in every Mapping type; near-miss texts alongside."""
+    for p in range(passes):
+        for key in C04.all_keys():
+            for kind in SUBKEY_KINDS:
+                text = C04.case_form(rng, key, rng.choice(['lower', 'upper', 'cap', 'mixed']))
+                text = rng.choice([text, 'x_' + text, text + '2', 'os-' + text + '_id'])
+                inner = make_mapping(rng, [(make_subkey(kind, text), rng.choice(['s3cr3t', 5, None, ['a'], b'raw'])),
+                                           (make_subkey(kind, 'user'), 'plain ' + key + '=abc'),
+                                           (make_subkey(kind, key[:-1]), 'kept')])
+                for lvl in range((p + len(key)) % 3):
+                    inner = make_mapping(rng, [(make_subkey(kind, 'n%d' % lvl), inner), ('id', lvl)])
+                yield inner
 
 
 def gen_leaf(rng):
@@ -321,7 +407,7 @@ class Enc:
         return len(self.keys) - 1
 
     def key(self, k):
-        return 'K:' + hexs(k) if type(k) is str else 'X:%d' % self.kid(k)
+        return 'K:' + hexs(str.__str__(k)) if isinstance(k, str) else 'X:%d' % self.kid(k)
 
     def val(self, v):
         if isinstance(v, collections.abc.Mapping):
@@ -333,8 +419,8 @@ class Enc:
 
     # canonical form of the implementation's result, in the same syntax
     def out_key(self, k):
-        if type(k) is str:
-            return 'K:' + hexs(k)
+        if isinstance(k, str):
+            return 'K:' + hexs(str.__str__(k))
         for i, o in enumerate(self.keys):
             if o is k:
                 return 'X:%d' % i
@@ -380,6 +466,22 @@ def snapshot(v):
     return ('V', type(v).__name__, id(v), r)
 
 
+def key_objects_kept(arg, res):
+    """Every key of the argument that is an instance of a str subclass (or not a str at all) must be THE SAME
+    object in the result (for plain str keys equal text is enough)."""
+    if not (isinstance(arg, collections.abc.Mapping) and isinstance(res, collections.abc.Mapping)):
+        return True
+    a, r = list(arg.items()), list(res.items())
+    if len(a) != len(r):
+        return True                     # reported by the structural comparison
+    for (ak, av), (rk, rv) in zip(a, r):
+        if type(ak) is not str and rk is not ak:
+            return False
+        if not key_objects_kept(av, rv):
+            return False
+    return True
+
+
 def run_impl(arg, mask):
     """-> (canonical result, mutated?)"""
     enc = Enc()
@@ -392,6 +494,8 @@ def run_impl(arg, mask):
         out = type(e).__name__
     else:
         out = 'ok\t' + enc.out_val(res, inputs)
+        if not key_objects_kept(arg, res):
+            out += ' KEY-OBJECT-REPLACED'
     after = snapshot(arg)
     return line_tree, out, before != after
 
@@ -549,6 +653,7 @@ def correspondence(ctx):
     fixed += list(short_secret_grid(rng, 2 if ctx.quick else 16))
     fixed += [SPECIALS[n]() for n in sorted(SPECIALS)] + [{'v': SPECIALS[n](), 'password': SPECIALS[n]()} for n in sorted(SPECIALS)]
     fixed += [VirtualMap({'password': 'x', 'n': VirtualMap({'user': 'token=abc'})})]
+    fixed += list(subkey_grid(rng, 1 if ctx.quick else 6))
     fixed += [gen_dag(rng) for _ in range(60 if ctx.quick else 1500)]
     for i in range(n + len(fixed)):
         arg = fixed[i] if i < len(fixed) else gen_case(rng, ctx.quick)
@@ -613,7 +718,7 @@ def spec(d, mask, mp):
     for k, v in d.items():
         if isinstance(v, collections.abc.Mapping):
             out.append((k, ('map', spec(v, mask, mp))))
-        elif isinstance(k, str) and any(sk in k.lower() for sk in C04.SPEC_KEYS):
+        elif isinstance(k, str) and any(sk in str.lower(k) for sk in C04.SPEC_KEYS):     # any str instance
             out.append((k, ('is', mask)))
         elif isinstance(v, str):
             out.append((k, ('eq', mp(v, mask))))
@@ -629,7 +734,7 @@ def conforms(res, want):
     if len(got) != len(want):
         return 'result has %d keys, argument %d' % (len(got), len(want))
     for (gk, gv), (wk, (how, wv)) in zip(got, want):
-        if gk is not wk and not (type(gk) is str and gk == wk):
+        if gk is not wk and not (type(gk) is str and type(wk) is str and gk == wk):
             return 'key %r became %r (or the key order changed)' % (wk, gk)
         if how == 'map':
             why = conforms(gv, wv)
@@ -696,6 +801,8 @@ def dump_arg(arg):
     def key(k):
         if type(k) is str:
             return {'s': k}
+        if isinstance(k, str):
+            return {'s': str.__str__(k), 'sub': subkey_kind(k)}
         for i, o in enumerate(NONSTR_KEYS):
             if type(o) is type(k) and o == k:
                 return {'nk': i}
@@ -730,6 +837,8 @@ def load_arg(j):
     nodes = {}
 
     def key(k):
+        if 'sub' in k:
+            return make_subkey(k['sub'], k['s'])
         if 's' in k:
             return k['s']
         if 'nk' in k:
@@ -837,6 +946,8 @@ def search(ctx, seeds, full=False):
         todo.append((SPECIALS[name](), '***'))
         todo.append(({'v': SPECIALS[name](), 'n': {'password': SPECIALS[name]()}}, '***'))
     todo.append((VirtualMap({'password': 'x', 'n': VirtualMap({'user': 'token=abc'})}), '***'))
+    for t in subkey_grid(rng, (3 if full else 1) if ctx.quick else 6):
+        todo.append((t, C04.gen_mask_text(rng)))
     for _ in range((400 if full else 80) if ctx.quick else 2000):
         todo.append((gen_dag(rng), C04.gen_mask_text(rng)))
     for _ in range(n):
@@ -845,6 +956,27 @@ def search(ctx, seeds, full=False):
     # call sequences: the result of every call must depend on that call's arguments only
     def report(case, why):
         small = shrink_sequence(case)
+        if len(small.get('steps', [])) == 1:
+            # one call is enough: an ordinary failing argument -- shrink it structurally
+            st = small['steps'][0]
+            arg, mask = case_arg(st), st['mask']
+            w = oracle(arg, mask)
+            if w:
+                kindword = w.split(':')[0]
+                if isinstance(arg, collections.abc.Mapping) and type(arg) is not dict:
+                    plain = dict(arg.items())
+                    w2 = oracle(plain, mask)
+                    if w2 and w2.split(':')[0] == kindword:
+                        arg = plain
+                if type(arg) is dict:
+                    arg = shrink_arg(arg, mask, kindword)
+                try:
+                    tree = Enc().val(arg)
+                except Exception:
+                    tree = None
+                fails.append(Failure({'repr': repr(arg)[:1500], 'tree': tree, 'arg': safe_dump(arg), 'mask': mask},
+                                     {'kind': kindword, 'what': oracle(arg, mask)}))
+                return
         r = oracle_sequence(small) if small is not case else None
         fails.append(Failure(small, {'kind': 'sequence-' + why.split(':')[0],
                                      'what': 'call %d of the sequence: %s' % (small.get('failing_step', -1), why)}))
